@@ -69,6 +69,9 @@ type zvC09Case struct {
 	// the route was received with an OTC attribute (type 35). bio-rd's codec does not know the attribute, the session layer keeps it as an
 	// unknown optional transitive attribute (partial bit set) and the OnlyToCustomer field stays 0
 	OTCRcvd bool `json:"otc_as_received_attribute_35"`
+	// Refresh: the route does not reach the session by AddPath but through a replacement of its export policy
+	// (reject-all -> accept-all) while the route is in the Loc-RIB: the second way into an Adj-RIB-Out (RefreshRoute)
+	Refresh bool `json:"via_export_policy_replacement,omitempty"`
 }
 
 func (c zvC09Case) String() string {
@@ -368,13 +371,23 @@ func zvC09Run(c zvC09Case) zvC09Obs {
 		if c.AP {
 			f.addPathTX = routingtable.ClientOptions{MaxPaths: 4}
 		}
-		aro := adjRIBOut.New(f.rib, f.getSessionAttrs(), filter.NewAcceptAllFilterChain())
+		chain := filter.NewAcceptAllFilterChain()
+		if c.Refresh {
+			chain = filter.NewDrainFilterChain()
+		}
+		aro := adjRIBOut.New(f.rib, f.getSessionAttrs(), chain)
 		f.adjRIBOut = aro
 		f.updateSender = newUpdateSender(f)
 		f.updateSender.Start(5 * time.Millisecond)
 		aro.Register(f.updateSender)
 
-		aro.AddPath(c.prefix(), c.path())
+		if c.Refresh {
+			f.rib.RegisterWithOptions(aro, f.addPathTX)
+			f.rib.AddPath(c.prefix(), c.path())
+			aro.ReplaceFilterChain(filter.NewAcceptAllFilterChain())
+		} else {
+			aro.AddPath(c.prefix(), c.path())
+		}
 		if c.Tick {
 			vsched.Advance(20 * time.Millisecond)
 		} else {
@@ -710,6 +723,15 @@ func zvC09Enumerate(thorough bool, visit func(idx int, c zvC09Case) bool) {
 											if !visit(idx, c) {
 												return
 											}
+											if !c.Tick {
+												// the same route arriving through an export policy replacement
+												idx++
+												c.Refresh = true
+												if !visit(idx, c) {
+													return
+												}
+												c.Refresh = false
+											}
 											if thorough {
 												idx++
 												c.Tick = false
@@ -732,7 +754,7 @@ func zvC09Enumerate(thorough bool, visit func(idx int, c zvC09Case) bool) {
 func TestVerifC09(t *testing.T) {
 	r := vh.Start(t, "C09")
 	defer r.Finish()
-	r.Rule("full cross product AS_PATH {empty,[65001],AS_SET first} x LOCAL_PREF {0,200} x ORIGINATOR_ID {0,7} x CLUSTER_LIST {absent,[9]} x OTC {absent, local AS, other AS} x communities {none, NO_EXPORT, NO_ADVERTISE, ordinary, " +
+	r.Rule("(every second case, thorough every case, also with the route reaching the session through an export policy replacement instead of AddPath) full cross product AS_PATH {empty,[65001],AS_SET first} x LOCAL_PREF {0,200} x ORIGINATOR_ID {0,7} x CLUSTER_LIST {absent,[9]} x OTC {absent, local AS, other AS} x communities {none, NO_EXPORT, NO_ADVERTISE, ordinary, " +
 		"ordinary+NO_EXPORT, ordinary+NO_ADVERTISE, NO_EXPORT+NO_ADVERTISE} x source {this peer, other iBGP peer, other eBGP peer, static (no BGP attributes)} x target {eBGP, eBGP RS client, iBGP, iBGP RR client} x role state {off, 5 admissible " +
 		"(local,remote) pairs x {not advertised by the peer, advertised, advertised+strict}} x {IPv4, IPv6 multiprotocol} x flush {ticker, End-of-RIB: alternating; thorough: both, x add-path TX {off,on}}; plus routes received with an OTC attribute (kept by the session layer as unknown attribute 35) x family x target x role state x {iBGP, eBGP source}; each case: fresh world, AdjRIBOut.AddPath, real UpdateSender, reference parser; " +
 		"non-trivial = cases in which a never-clause applies or a rewrite (prepend/next-hop-self, RR attributes, OTC) is demanded")
